@@ -512,3 +512,57 @@ class verbatim_exitInstrument:
 
     def post_verbatim(self, ctx):
         return verbatim(self, ctx, 'exitInstrument')
+
+
+class XywhCtx:
+    def __init__(self, x, y, w, h):
+        self.x_, self.y_, self.w_, self.h_ = x, y, w, h
+
+    def x(self):
+        return self.x_
+
+    def y(self):
+        return self.y_
+
+    def w(self):
+        return self.w_
+
+    def h(self):
+        return self.h_
+
+
+class BoundingBoxCtx:
+    """boundingBox: '*xywh-' pageNumber ':' x ',' y ',' w ',' h"""
+    def __init__(self, text, page, xywh):
+        self.text, self.page, self.xywh_ = text, page, xywh
+
+    def getText(self):
+        return self.text
+
+    def pageNumber(self):
+        return self.page
+
+    def xywh(self):
+        return self.xywh_
+
+
+@contract(L + 'exitBoundingBox', props=['C03'])
+class exit_bounding_box:
+    """C03 (non-note cells verbatim): the token carries the text of the cell unchanged; the page and the box are the numbers written
+    in the cell (x, y, x + w, y + h)"""
+    assumes = (A_SHAPES,)
+
+    def inputs(g):
+        x, y, w, h = g.int('x', 0), g.int('y', 0), g.int('w', 0), g.int('h', 0)
+        ctx = BoundingBoxCtx(g.str_sym('text', ['*xywh-1:10,20,300,40']), Text(g.str_sym('page', ['1', '12'])),
+                             XywhCtx(Text(str(x)), Text(str(y)), Text(str(w)), Text(str(h))))
+        return {'self': mk_listener(g, []), 'ctx': ctx, '_x': x, '_y': y, '_w': w, '_h': h}
+
+    def modifies_objs(self):
+        return [self]
+
+    def post_verbatim_with_its_numbers(self, ctx, x, y, w, h):
+        t = self.token
+        b = t.bounding_box
+        return conj(type(t).__name__ == 'BoundingBoxToken', t.encoding == ctx.text, t.page_number == ctx.page.text,
+                    b.from_x == x, b.from_y == y, b.to_x == x + w, b.to_y == y + h)
